@@ -77,6 +77,9 @@ func c20Expect(m *c19Msg, s c19Sess, nh []byte) string {
 	}
 	sb.WriteString(" unknown=")
 	for _, u := range a.Unknown {
+		if u.Type == kit.AtAS4Path || u.Type == kit.AtAS4Aggr {
+			continue
+		}
 		fmt.Fprintf(&sb, "%d(o%v,p%v):%x,", u.Type, u.Flags&kit.FlOptional != 0, u.Flags&kit.FlPartial != 0, u.Value)
 	}
 	return sb.String()
